@@ -24,6 +24,7 @@ struct State {
     forced: VecDeque<u64>,
     poison: u8,
     draws: u64,
+    keep_rx_tail: bool,
 }
 
 static STATE: Mutex<State> = Mutex::new(State {
@@ -32,6 +33,7 @@ static STATE: Mutex<State> = Mutex::new(State {
     forced: VecDeque::new(),
     poison: 0xA5,
     draws: 0,
+    keep_rx_tail: false,
 });
 
 fn transport(py: Python) -> Option<PyObject> {
@@ -160,9 +162,18 @@ impl SimIo<'_> {
                 .as_bytes();
             // Datagram semantics: excess octets are discarded
             let n = data.len().min(buf.len());
-            let p = poison();
+            let (p, keep) = {
+                let st = STATE.lock().unwrap();
+                (st.poison, st.keep_rx_tail)
+            };
             for (i, slot) in buf.iter_mut().enumerate() {
-                slot.write(if i < n { data[i] } else { p });
+                if i < n {
+                    slot.write(data[i]);
+                } else if !keep {
+                    slot.write(p);
+                }
+                // keep: like a real kernel, octets beyond the datagram keep what
+                // the (pooled, already initialised) buffer held before
             }
             Ok(n)
         })
@@ -204,8 +215,16 @@ pub fn _verif_reset(seed: u64, poison: u8) {
         st.forced.clear();
         st.poison = poison;
         st.draws = 0;
+        st.keep_rx_tail = false;
     }
     crate::buf::get_buffer_pool().verif_clear();
+}
+
+/// keep=true: a receive leaves the buffer beyond the datagram untouched (stale
+/// octets of earlier datagrams stay, as with a real kernel) instead of poisoning it
+#[pyfunction]
+pub fn _verif_set_rx_tail(keep: bool) {
+    STATE.lock().unwrap().keep_rx_tail = keep;
 }
 
 /// Queue values returned by the next entropy draws, in order
@@ -227,5 +246,6 @@ pub fn register(m: &Bound<'_, PyModule>) -> PyResult<()> {
     m.add_function(wrap_pyfunction!(_verif_reset, m)?)?;
     m.add_function(wrap_pyfunction!(_verif_force_random, m)?)?;
     m.add_function(wrap_pyfunction!(_verif_probe, m)?)?;
+    m.add_function(wrap_pyfunction!(_verif_set_rx_tail, m)?)?;
     Ok(())
 }
